@@ -178,6 +178,25 @@ def parent_at(a, x):
     return par
 
 
+def arg_form(rng, seq, float_ok=False):
+    """the same id / coordinate list in one of the forms the API accepts: list, tuple, contiguous int32 / int64 array, or a strided
+    view of a longer array; results must not depend on the form"""
+    import numpy as np
+    seq = list(seq)
+    k = rng.randrange(6)
+    if k == 0:
+        return seq
+    if k == 1:
+        return tuple(seq)
+    dt = np.float64 if float_ok else (np.int32 if k in (2, 4) else np.int64)
+    a = np.array(seq, dtype=dt)
+    if k in (2, 3) or a.ndim != 1:
+        return a
+    b = np.zeros(2 * len(a) + 1, dtype=dt)
+    b[::2][:len(a)] = a
+    return b[::2][:len(a)]
+
+
 def add_user_flags(tables, rng, p=0.35):
     """OR application-specific bits (the upper 16 bits of the flags word are reserved for users) into random node flags: being a sample
     is the NODE_IS_SAMPLE bit, not equality of the whole word, so nothing the library computes may depend on these bits"""
